@@ -239,6 +239,116 @@ def _product_unit(unit):
     return acc
 
 
+# ---------------------------------------------------------------- alternate schema shapes
+# Node(code unique) <- Item.node (foreign key on the non-primary-key column `code`; Item's only manager is called `rows`);
+# Node <- Extra.node one-to-one (Node.extra is the reverse side). Every small instance; oracle written out per filter.
+ALT_CODES = ["c2", "c1", "c3"]        # node ids 1..3 - codes deliberately NOT in id order
+
+
+def alt_instances():
+    from itertools import product
+    out = []
+    for assign in product([None, 0, 1, 2], repeat=2):           # node index of item 1 / item 2
+        for names in (("i1", "i1"), ("i1", "i2")):
+            for extras in product([False, True], repeat=3):
+                out.append({"items": list(zip(names, assign)), "extras": extras})
+    return out
+
+
+def _alt_children(db, k):
+    return [nm for nm, nd in db["items"] if nd == k]
+
+
+ALT_FILTERS = {
+    "Node": {
+        "items/any()": lambda db, k: bool(_alt_children(db, k)),
+        "items/any(i: i/name eq 'i1')": lambda db, k: "i1" in _alt_children(db, k),
+        "items/all(i: i/name eq 'i1')": lambda db, k: all(c == "i1" for c in _alt_children(db, k)),
+        "not items/any()": lambda db, k: not _alt_children(db, k),
+        "extra eq null": lambda db, k: not db["extras"][k],
+        "extra ne null": lambda db, k: db["extras"][k],
+        "items/any(i: i/name eq 'i2') or extra eq null": lambda db, k: "i2" in _alt_children(db, k) or not db["extras"][k],
+        "extra/note eq 'e'": lambda db, k: db["extras"][k],
+        "code eq 'c1' and items/all(i: i/name ne 'i2')": lambda db, k: ALT_CODES[k] == "c1" and all(c != "i2" for c in _alt_children(db, k)),
+    },
+    "Item": {
+        "node eq null": lambda db, j: db["items"][j][1] is None,
+        "node ne null": lambda db, j: db["items"][j][1] is not None,
+        "node/code eq 'c2'": lambda db, j: db["items"][j][1] is not None and ALT_CODES[db["items"][j][1]] == "c2",
+        "node/extra eq null": lambda db, j: db["items"][j][1] is None or not db["extras"][db["items"][j][1]],
+        "node/extra ne null": lambda db, j: db["items"][j][1] is not None and db["extras"][db["items"][j][1]],
+        "node/items/any(j: j/name eq 'i2')": lambda db, j: db["items"][j][1] is not None and "i2" in _alt_children(db, db["items"][j][1]),
+        "node/extra/note eq 'e' or name eq 'i2'": lambda db, j: (db["items"][j][1] is not None and db["extras"][db["items"][j][1]]) or db["items"][j][0] == "i2",
+    },
+}
+
+
+def _alt_load(db):
+    M = django_h.alternate_models()
+    R = sa_h.alternate()
+    M.Extra.objects.all().delete()
+    M.Item.rows.all().delete()
+    M.Node.objects.all().delete()
+    ses = session()
+    for cls in ("Extra", "Item", "Node"):
+        ses.execute(sa.delete(R[cls]))
+    for k, code in enumerate(ALT_CODES):
+        M.Node.objects.create(id=k + 1, code=code)
+        ses.add(R["Node"](id=k + 1, code=code))
+    for j, (nm, nd) in enumerate(db["items"]):
+        M.Item.rows.create(id=j + 1, name=nm, node_id=None if nd is None else ALT_CODES[nd])
+        ses.add(R["Item"](id=j + 1, name=nm, node_code=None if nd is None else ALT_CODES[nd]))
+    for k, has in enumerate(db["extras"]):
+        if has:
+            M.Extra.objects.create(id=k + 1, note="e", node_id=k + 1)
+            ses.add(R["Extra"](id=k + 1, note="e", node_id=k + 1))
+    ses.commit()
+    return M, R
+
+
+def _alt_run(bk, M, R, root, text):
+    try:
+        if bk == "django":
+            from odata_query.django import apply_odata_query
+            mgr = M.Item.rows if root == "Item" else M.Node.objects
+            return sorted(apply_odata_query(mgr.all(), text).values_list("id", flat=True))
+        from odata_query.sqlalchemy import apply_odata_query
+        ses = session()
+        if bk == "sa-select":
+            return sorted(r.id for r in ses.execute(apply_odata_query(sa.select(R[root]), text)).scalars())
+        return sorted(r.id for r in apply_odata_query(ses.query(R[root]), text).all())
+    except Exception as e:  # noqa
+        if bk != "django":
+            session().rollback()
+        return ("EXC", type(e).__name__, str(e)[:160].replace("\n", " "))
+
+
+def _alt_unit(dbs):
+    django_h.setup()
+    acc = Acc()
+    for db in dbs:
+        M, R = _alt_load(db)
+        acc.count("states")
+        for root, fl in ALT_FILTERS.items():
+            n = 3 if root == "Node" else 2
+            for text, pred in fl.items():
+                want = [i + 1 for i in range(n) if pred(db, i)]
+                for bk in BACKENDS:
+                    got = _alt_run(bk, M, R, root, text)
+                    acc.count("executions")
+                    acc.count("transitions")
+                    if 0 < len(want) < n:
+                        acc.count("nontrivial")
+                    if got != want:
+                        kind = "exc:" + got[1] if isinstance(got, tuple) else "rows"
+                        acc.violation("alt-schema:%s:%s:%s" % (bk, kind, "lambda" if "any(" in text or "all(" in text else "to-one-null" if "null" in text else "path"),
+                                      {"layer": "alt-schema", "backend": bk, "root": root, "filter": text, "db": {"items": [list(x) for x in db["items"]], "extras": list(db["extras"])},
+                                       "expected": want, "observed": list(got) if isinstance(got, tuple) else got})
+                    else:
+                        acc.outcome(("alt", root, len(want)))
+    return acc
+
+
 def run(ctx):
     django_h.setup()
     inst = instances()
@@ -263,10 +373,20 @@ def run(ctx):
     ctx.layer("small-instances", instances=len(chosen), of=n, families={k: len(v) for k, v in fam_idx.items()}, filters=nf,
               backends=list(BACKENDS), exhaustive=not ctx.quick,
               note="quick: families C(1/4), E, F + block VERIF_SEED mod 32 of A, B, D; thorough: all instances")
+    alt = alt_instances()
+    ctx.pmap(_alt_unit, [alt[i::32] for i in range(32)])
+    ctx.layer("alternate-schema", instances=len(alt), filters=sum(len(v) for v in ALT_FILTERS.values()), backends=list(BACKENDS), exhaustive=True,
+              note="foreign key on a unique non-primary-key column (to_field), child manager not called `objects`, reverse side of a one-to-one compared with null")
 
 
 def replay(ctx, case):
     django_h.setup()
+    if case.get("layer") == "alt-schema":
+        db = {"items": [tuple(x) for x in case["db"]["items"]], "extras": tuple(case["db"]["extras"])}
+        M, R = _alt_load(db)
+        got = _alt_run(case["backend"], M, R, case["root"], case["filter"])
+        return {"filter": case["filter"], "backend": case["backend"], "expected": case["expected"], "observed": list(got) if isinstance(got, tuple) else got,
+                "ok": got == case["expected"]}
     if case["instance"] == "product":
         return {"ok": False, "note": "product-instance case: rerun ./check C04 (the same filter is also run on the small instances)"}
     db = RL.DB()
